@@ -197,19 +197,24 @@ class Oracle:
     (finite systems: the whole system).  For infinite systems every term is repeated in all unit cells and kept if
     it lies completely inside the window."""
 
-    def __init__(self, ctx, lat, ref, n_cells=1):
+    def __init__(self, ctx, lat, ref, n_cells=1, unit_cell=None):
+        """unit_cell: optional replacement of `lat.unit_cell` by twin sites (same operators, other basis order: the
+        sites without charge conservation keep the standard, un-sorted local basis)"""
         self.ctx = ctx
         self.lat = lat
         self.ref = ref
         self.n_cells = n_cells if ref.infinite else 1
-        self.sites = list(lat.mps_sites()) * self.n_cells
+        cell = list(lat.mps_sites()) if unit_cell is None else [unit_cell[row[-1]] for row in ref.order]
+        self.cell = cell
+        self.sites = cell * self.n_cells
+        self.jw_gap = False  # a term with Jordan-Wigner operators on non-adjacent MPS sites (non-zero strength)
         self.W = len(self.sites)
         d = int(np.prod([s.dim for s in self.sites]))
         self.H = np.zeros((d, d), dtype=object if ctx.symbolic else complex)
         self.n_terms = 0
         self.max_range = 0  # largest distance (in MPS sites) of two operators of a term with non-zero strength
         # onsite operator of every site of the unit cell (for the half / half split of infinite bond operators)
-        self.onsite_mats = [np.zeros((s.dim, s.dim), dtype=object if ctx.symbolic else complex) for s in lat.mps_sites()]
+        self.onsite_mats = [np.zeros((s.dim, s.dim), dtype=object if ctx.symbolic else complex) for s in cell]
 
     def _translations(self, idx):
         if not self.ref.infinite:
@@ -225,6 +230,11 @@ class Oracle:
     def add(self, strength, ops, plus_hc=False):
         """ops: list of (opname, mps index) in the unit-cell representative; product in the given order"""
         pos = [i for _, i in ops]
+        if len(pos) > 1 and max(pos) - min(pos) > 1 and not self.jw_gap:
+            sp = sorted(pos)
+            if any(needs_jw(self.sites[i % self.ref.N], n) for n, i in ops) and any(b - a > 1 for a, b in zip(sp, sp[1:])) \
+                    and bool(strength != 0):
+                self.jw_gap = True
         if len(pos) > 1 and max(pos) - min(pos) > self.max_range and bool(strength != 0):
             self.max_range = max(pos) - min(pos)
         if len(pos) == 1:
@@ -270,6 +280,8 @@ class Oracle:
         S = list(range(N)) if subsites is None else list(subsites)
         if len(S) > 1 and bool(strength != 0):
             self.max_range = max(self.max_range, 2)  # long range
+            if len(S) > 2 and needs_jw(self.sites[S[0]], op_i):
+                self.jw_gap = True
         allS = []
         for k in range(self.n_cells):
             allS += [s + k * N for s in S]
